@@ -75,6 +75,18 @@ Fixpoint oracles_ok (cap cnt : Z) (ops : list (op T)) : Prop :=
     oracles_ok (fst (cap_next cap cnt o)) (snd (cap_next cap cnt o)) rest
   end.
 
+(* For the 64-bit theorems: buffer lengths stay <= 2^62 (so that head + n < 2^63) and Peek offsets
+   are ints.  A Go slice of a type of non-zero size cannot be longer than 2^48 (runtime maxAlloc),
+   so the bound only ever excludes zero-size element types with astronomically large NewSize. *)
+Definition cap_bound : Z := 4611686018427387904.     (* 2^62 *)
+Definition op_small (o : op T) : Prop :=
+  match o with
+  | OAdd _ c | OPush _ c => c <= cap_bound
+  | OPeek k => - 9223372036854775808 <= k < 9223372036854775808
+  | _ => True
+  end.
+Definition ops_small (ops : list (op T)) : Prop := Forall op_small ops.
+
 Definition init_cap (i : init) : Z :=
   match i with ISize k => k | _ => 0 end.
 
